@@ -3072,3 +3072,63 @@ def rule_lossy_only_removes_work(col, facts):
             col.check(R, "%s:normalize-not-gated" % nm, not bad_norm,
                       "%d normalize call(s) depend on `lossy`: the multiplication that follows loses up to 31 bits of the mantissa in lossy mode (`123456789012e-41` 19884 ulp off)" % len(bad_norm), bad_norm[0] if bad_norm else f.loc())
     col.floor(R, "moderate-path algorithms with a lossy flag", n, 1)   # compact (decimal only) has just Bellerophon
+
+
+def rule_sign_needs_digit(col, facts):
+    """MPT-sign-digit (partial integer parser): stopping at a byte that is not a digit is a success only if a digit
+    was consumed - or nothing at all.  After a consumed sign (or base prefix) with no digit the input is as empty
+    as when it ends there: `parse_partial("+x")` must not return Ok((0, 1)), since `parse("+")` is Empty.  Every
+    `Ok((value, index - 1))` exit must therefore come after a test that compares the position with the start of
+    the digits (the local initialised from `cursor()` after the sign was parsed)."""
+    R = "MPT-sign-digit"
+    f = facts.fn("lexical_parse_integer::algorithm::algorithm_partial")
+    # the start of the digits: a local whose first definition is `iter.cursor()` and that is compared / re-assigned later
+    starts = set()
+    for l, ds in f.defs().items():
+        if ds and ds[0][2][0] == "call" and last_seg(callee_name(ds[0][2][1])) == "cursor" and not ds[0][3] and f.names.get(l):
+            starts.add(l)
+
+    def mentions(x):
+        if isinstance(x, tuple):
+            if x and x[0] == "var" and len(x) > 1 and x[1] in starts:
+                return True
+            if x and x[0] == "call" and len(x) > 3 and x[3] in starts:       # a single-definition local is inlined
+                return True
+            return any(mentions(y) for y in x)
+        return False
+    tests = []
+    for i, b in enumerate(f.blocks):
+        if f.live(i) and b["t"]["k"] == "switch":
+            e = strip_casts(op_expr(f, b["t"]["d"]))
+            if e[0] == "bin" and e[1] in ("Eq", "Ne") and mentions(e):
+                tests.append(i)
+    n = bad = 0
+    where = f.loc()
+    for i, b in enumerate(f.blocks):
+        if not f.live(i):
+            continue
+        for st in b["s"]:
+            if st[0] == "=" and st[1] == [0, []] and st[2][0] == "agg" and st[2][1][0] == "adt" and st[2][1][3] == "Ok":
+                tup = strip_casts(rvalue_expr(f, st[2], 0)[2][0])
+                if tup[0] == "agg" and len(tup[2]) == 2:
+                    idx = strip_casts(tup[2][1])
+                    if idx[0] == "bin" and idx[1] == "Sub" and strip_casts(idx[3]) == ("k", 1):
+                        n += 1
+                        # (the test is one conjunct of `required && start != 0 && index - 1 == start`, so it need not
+                        #  dominate the exit: it is enough that one way into the exit carries it)
+                        def covered(bb, depth=0):
+                            if any(f.dominates(t_, bb) for t_ in tests):
+                                return True
+                            if any(mentions(strip_casts(e_)) for alt in reach_alternatives(f, bb) for _d, e_, _p in alt):
+                                return True
+                            if depth >= 4:
+                                return False
+                            # climb to the immediate dominator (the `format` build puts its own count test in between)
+                            doms = [d_ for d_ in range(len(f.blocks)) if d_ != bb and f.live(d_) and f.dominates(d_, bb)]
+                            idom = [d_ for d_ in doms if all(f.dominates(x_, d_) for x_ in doms)]
+                            return bool(idom) and not any(f.dominates(idom[0], t_) for t_ in tests) and covered(idom[0], depth + 1)
+                        if not covered(i):
+                            bad += 1
+                            where = f.loc(st[3])
+    col.check(R, "algorithm_partial:ok-at-non-digit-after-start-test", n >= 1 and bad == 0,
+              "%d of %d exits `Ok((value, index - 1))` are taken without comparing the position with the start of the digits: after a sign with no digit (`+x`) the partial parser reports one byte consumed although `+` alone is Empty" % (bad, n), where)
